@@ -22,6 +22,7 @@ package token
 
 import (
 	"fmt"
+	"go/parser"
 
 	"github.com/gontainer/gontainer-helpers/v3/exporter"
 	"github.com/gontainer/gontainer/internal/pkg/consts"
@@ -132,6 +133,12 @@ func (f *FactoryFunction) Create(expr string) (Token, error) {
 		callFn += fmt.Sprintf(", %s", m["params"])
 	}
 	callFn += ")"
+
+	// the arguments are printed as they are into the constructor of the container (but not into the stub),
+	// so they must be checked here, otherwise the result of the build depends on the flag --stub
+	if _, err := parser.ParseExpr(callFn); err != nil {
+		return Token{}, fmt.Errorf("invalid arguments of the function %+q: %s: %w", f.fn, expr, err)
+	}
 
 	body := fmt.Sprintf(
 		`r, err = %s; if err != nil { err = %s.Errorf("%%s: %%w", %s, err) }; return`,
